@@ -24,7 +24,7 @@ func init() {
 var allocImpls = []string{"*mempool.MemPool", "*mempool.AlignedAllocator", "*mempool.stdAllocator"}
 
 func runC20(c *Ctx) {
-	c.Rule("C20.O1", "E4", "every non-nil return of each Malloc(size) has length size: the last store to the returned slice is make([]byte,size) or x[:size]", 3)
+	c.Rule("C20.O1", "E4", "every non-nil return of each Malloc(size) and Realloc(_, size) has length size: the last store to the returned slice is make([]byte,size) or x[:size] (or the buffer is a Malloc(size) of the same allocator)", 6)
 	c.Rule("C20.O2", "E2,E4", "inside mempool: no use / return / second release of a block after its release; Append and Realloc copy to offsets 0 and len(old)", 4)
 	c.Rule("C20.O3", "E4", "pooling Free: Put only behind cap>0 and the upper bound; MemPool.Malloc grows to size before [:size]; aligned class table indexed only within bounds; each class's New makes exactly the class size", 5)
 	c.Rule("C20.O6", "E8", "the aligned allocator files a released buffer under a size class only when its capacity is exactly a class size (a power of two within the class range): decided by evaluating Free's filter over every capacity from 0 to beyond the largest class; Malloc re-slices a pooled buffer up to its class size", 1)
@@ -67,6 +67,60 @@ func runC20(c *Ctx) {
 				}
 				if !okLen {
 					bad = "the buffer returned at " + c.Pos(r) + " has the length of " + c.P.Desc(last.Val) + " (stored at " + c.Pos(last) + "), not the requested size"
+				}
+			}
+		}
+		if n == 0 && bad == "" {
+			bad = "no return of a buffer"
+		}
+		c.Cond(bad == "", "C20.O1", fnKey(c.P, fn, "length == size"), c.FnPos(fn), fmt.Sprintf("%d returning path(s)", n), bad)
+	}
+
+	// ------------------------------------------------------------------ O1 (Realloc): the returned buffer has the requested length
+	for _, impl := range allocImpls {
+		fn := c.Fn("C20.O1", "("+impl+").Realloc")
+		if fn == nil {
+			continue
+		}
+		fi := c.P.Info(fn)
+		size := fn.Params[2]
+		bad := ""
+		n := 0
+		for _, r := range fi.Returns() {
+			v := ir.Resolve(ir.RetVals(r)[0])
+			if ir.IsNilConst(v) {
+				continue
+			}
+			n++
+			// the result of a Malloc(size) of the same family
+			if call, ok := v.(*ssa.Call); ok && strings.HasSuffix(c.P.CalleeName(&call.Call), ".Malloc") {
+				args := call.Call.Args
+				if len(args) > 0 && ir.Resolve(args[len(args)-1]) == ssa.Value(size) {
+					continue
+				}
+			}
+			stores, bare := lastStoresBefore(r, v)
+			if bare && len(stores) == 0 {
+				bad = "a path reaches the return at " + c.Pos(r) + " without giving the buffer the requested length"
+			}
+			for _, last := range stores {
+				okLen := false
+				switch x := ir.Resolve(last.Val).(type) {
+				case *ssa.MakeSlice:
+					okLen = ir.Resolve(x.Len) == ssa.Value(size)
+				case *ssa.Slice:
+					okLen = x.High != nil && ir.Resolve(x.High) == ssa.Value(size) && (x.Low == nil || isZero(x.Low))
+				case *ssa.Call:
+					// Malloc(size) result dereferenced
+				}
+				if ld, isLoad := ir.IsLoad(ir.Resolve(last.Val)); isLoad {
+					if call, ok := ir.Resolve(ld).(*ssa.Call); ok && strings.HasSuffix(c.P.CalleeName(&call.Call), ".Malloc") {
+						args := call.Call.Args
+						okLen = len(args) > 0 && ir.Resolve(args[len(args)-1]) == ssa.Value(size)
+					}
+				}
+				if !okLen {
+					bad = "the buffer returned at " + c.Pos(r) + " has the length of " + c.P.Desc(last.Val) + " (stored at " + c.Pos(last) + "), not the requested size: Realloc(n) must return length n whatever the old length and capacity were"
 				}
 			}
 		}
